@@ -190,6 +190,13 @@ func init() {
 		Level: "exploration",
 		Rule:  "Engine-W histories of accepted and refused updates over 1..4 logs (IDs from the repository's own origin-to-ID function, cross-checked against the harness's) on both stores; after every step GETs through the registered mux router (following its path-cleaning redirects) and through the bundled client/http.Witness over simnet, for known, unknown and syntactically odd IDs (empty, dots, slash, encoded slash, upper-case hex, ID plus suffix, ID minus a character, 4000 characters, ...), with injected transport faults on client lookups (drop, 5xx, truncation, stall), the log list after every step; in a second batch the reads race the updates under the seeded scheduler (a GET while an update is parked mid-transaction); non-trivial = a read hit a log with a stored checkpoint after at least one growth, or an odd ID; distinct = distinct (ID kind, path, state class, status or client result class, fault) tuples",
 		Gen: func(r *Rng, tier string, n uint64) *Plan {
+			if n%9 == 8 {
+				// updates arriving through the add-checkpoint endpoint, the read API after each of them: without an accepted
+				// update in between, what is served for every log stays what it was
+				q := scenarios["C10"].Gen(r, tier, n)
+				q.Scenario = "endpoint-reads"
+				return q
+			}
 			pf := Profile{MaxLogs: 4, ShareKeys: true, MinOps: 2, MaxOps: 8, Adversarial: 0.4, Mutations: 0.3, BigSizes: false}
 			p := &Plan{Scenario: "W"}
 			p.Cfg = genConfig(r, pf)
@@ -240,6 +247,13 @@ func init() {
 			return p
 		},
 		Run: func(t *testing.T, p *Plan) *Outcome {
+			if p.Scenario == "endpoint-reads" {
+				out := c03ViaBastion(t, p)
+				for i := range out.Viol {
+					out.Viol[i].Class, out.Viol[i].Sig = "wrong_bytes", "wrong_bytes/"+out.Viol[i].Sig
+				}
+				return out
+			}
 			res, out := baseOutcome(t, p, false)
 			if len(out.Infra) > 0 {
 				return out
